@@ -126,3 +126,55 @@ Example C09_nonvacuous :
   resolve [mkDef "child" "" 2; mkDef "child" "ns" 3] "wb.p" "p" "ns" "child" = Some 3 /\
   descend None 5 [6; 7; 8] = [5; 5; 5].
 Proof. vm_compute. repeat split; discriminate. Qed.
+
+(* ---- every descendant evaluates its expressions against the ROOT execution's environment ---- *)
+(* Gen/EnvSites.v is translated from the source on every run: get_workflow_environment_dict and the
+   environment layer of every ContextView(...) construction.  For every root environment E, every tree
+   depth d, every execution e of the tree and every site that builds the context of an expression of a
+   workflow / task / action (all sites but the three named in Model/EnvTree.v exempt_sites), env() is E *)
+Require Import Mistral.Gen.EnvSites Mistral.Model.EnvTree Mistral.Proofs.EnvTreeProofs.
+
+Theorem C09_env_root_everywhere : forall i E d e s,
+  in_tree (mk_root i E) d e -> In s env_sites -> env_exempt s = false ->
+  env_seen s e = Some E.
+Proof. exact env_root_everywhere. Qed.
+Print Assumptions C09_env_root_everywhere.
+
+(* the translated function alone: at every depth it yields the root's own params['env'], whatever
+   environment an intermediate caller handed to the descendant; and every descendant records the root *)
+Theorem C09_env_dict_is_roots : forall i E d e,
+  in_tree (mk_root i E) d e -> get_workflow_environment_dict e = Some E.
+Proof. exact env_dict_in_tree. Qed.
+Print Assumptions C09_env_dict_is_roots.
+
+Theorem C09_env_tree_root_link : forall i E d e,
+  in_tree (mk_root i E) (S d) e -> ex_root_id e = Some i /\ ex_root e = Some (mk_root i E).
+Proof. exact root_id_in_tree. Qed.
+Print Assumptions C09_env_tree_root_link.
+
+(* every caller of expr.evaluate* in mistral/workflow, mistral/engine takes its context from a listed site *)
+Theorem C09_env_uses_have_sites : forall u, In u env_uses -> exists s, In s env_sites /\ site_name s = snd u.
+Proof. exact uses_have_sites. Qed.
+Print Assumptions C09_env_uses_have_sites.
+
+(* a site reading the execution's own params (the shortcut {'__env': wf_ex.params.get('env', {})}) is
+   refuted: in every descendant that was not handed an environment it sees {} *)
+Theorem C09_env_own_params_refuted : forall s i E d p j,
+  site_env s = EnvOwnParams -> E <> [] -> in_tree (mk_root i E) d p ->
+  in_tree (mk_root i E) (S d) (spawn p j []) /\ env_seen s (spawn p j []) = Some [] /\
+  env_seen s (spawn p j []) <> Some E.
+Proof. exact own_params_site_refuted. Qed.
+Print Assumptions C09_env_own_params_refuted.
+
+Theorem C09_env_nonvacuous :
+  (forall n, In n ["data_flow.add_workflow_variables_to_context"; "data_flow.publish_variables";
+                   "data_flow.evaluate_workflow_output"; "tasks.Task.get_expression_context";
+                   "tasks.RegularTask._get_target"; "actions.RegularAction.schedule";
+                   "direct_workflow.DirectWorkflowController._find_next_tasks"] ->
+             exists s, In s env_sites /\ site_name s = n /\ env_exempt s = false /\
+                       env_seen s (node_at nv_E nv_steps) = Some nv_E) /\
+  ex_params_env (node_at nv_E nv_steps) = Some [] /\
+  ex_params_env (node_at nv_E [(1, []); (2, [("tok", "MID")])]) = Some [("tok", "MID")] /\
+  List.length env_uses >= 10.
+Proof. exact env_nonvacuous. Qed.
+Print Assumptions C09_env_nonvacuous.
